@@ -257,6 +257,17 @@ func generateHarnesses(repo, prop, dir string) error {
 		b.WriteString("\t\treturn true\n")
 	}
 	b.WriteString("\t}\n\treturn false\n}\n\n")
+	b.WriteString("// vpSetNLV stores v in natural-language field number field; false when that field is of another kind.\nfunc vpSetNLV(it Item, field int, v NaturalLanguageValues) bool {\n\tswitch x := it.(type) {\n")
+	for _, s := range vocab {
+		fmt.Fprintf(&b, "\tcase *%s:\n\t\tswitch field {\n", s.Name)
+		for i, f := range s.Fields {
+			if f.Kind == "NLV" {
+				fmt.Fprintf(&b, "\t\tcase %d:\n\t\t\tx.%s = v\n\t\t\treturn true\n", i, f.Name)
+			}
+		}
+		b.WriteString("\t\t}\n")
+	}
+	b.WriteString("\t}\n\treturn false\n}\n\n")
 	b.WriteString("// vpCloneItem makes a shallow copy of a vocabulary struct behind a pointer.\nfunc vpCloneItem(a Item) Item {\n\tswitch x := a.(type) {\n")
 	for _, s := range vocab {
 		fmt.Fprintf(&b, "\tcase *%s:\n\t\tc := *x\n\t\treturn &c\n", s.Name)
